@@ -236,11 +236,14 @@ CHECKS = {
              "(harness/instruments.py, written from the formats and vendor samples; every printed token parses back to the same "
              "double), read by the real reader and compared: timestamps, frequencies, directions, positions, densities; for "
              "reconstructing readers sum(efth*dd) and the 1-D request against the file's frequency spectrum. The specification's factor "
-             "table is cross-checked against the encoders' expectations; vendor samples are decoded independently.",
+             "table is cross-checked against the encoders' expectations; vendor samples are decoded independently. SwanFile.tla models "
+             "the SWAN reader operationally (one-line lookahead, keyword tests, direct reads): TLC checks ParseCorrect and the lookahead "
+             "discipline over every block content within bounds; the contents are replayed through the real writer and reader and every "
+             "recorded read (events from a harness-side wrapper) is validated by SwanFileTrace.tla.",
         note="Trusted: TLC, the reference encoders (their self-consistency is checked: permuting records never changes the sorted "
-             "expectation; tokens round-trip). Five defects repaired (TRIAXYS frequency grid, NDBC history r1/r2 scale, XWaves double date "
-             "vectors, record order in four readers); open findings: Spotter JSON spectra timestamps, multi-point WW3 station files.",
-        technique="TLA+ unit/direction/record-order model + TLC case enumeration realised by independent reference encoders and read by the real readers",
+             "expectation; tokens round-trip). Seven defects repaired (TRIAXYS frequency grid, NDBC history r1/r2 scale, XWaves double date "
+             "vectors, record order in four readers, in read_swans and in read_triaxys); open findings: Spotter JSON spectra timestamps, multi-point WW3 station files.",
+        technique="TLA+ unit/direction/record-order model + TLC case enumeration realised by independent reference encoders and read by the real readers; operational reader model with trace validation (SwanFileTrace)",
         ref="§4 C13", engine="tlc"),
     "C11": dict(
         text="SWAN ASCII is specified as a record grammar with a writer automaton and a reader automaton (formats/Swan.tla); TLC "
